@@ -602,7 +602,10 @@ def process_html_fragments(
     markupsafe.Markup
         The processed markup.
     """
-    rawnodes = lxml.html.fragments_fromstring(markup)
+    # without huge_tree, libxml2 silently drops text runs above 10 MB
+    rawnodes = lxml.html.fragments_fromstring(
+        markup, parser=lxml.html.HTMLParser(huge_tree=True)
+    )
     if rawnodes and isinstance(rawnodes[0], str):
         firstnode = html.escape(rawnodes[0])
         nodes = t.cast(list[etree._Element], rawnodes[1:])
